@@ -4,7 +4,8 @@ from .series_props import specs_evals, specs_wiring, specs_product, specs_index,
 from .hermitian_common import LEAN_SETTING_NOTE
 
 LEAN = ["PV.NH.inv_left", "PV.NH.inv_right", "PV.NH.C05_inverse_left", "PV.NH.C05_inverse_right", "PV.NH.C05_gauge",
-        "PV.NH.X_comm", "PV.NH.main_similarity", "PV.NH.C05_similarity", "PV.NH.C05_eliminated"]
+        "PV.NH.X_comm", "PV.NH.main_similarity", "PV.NH.C05_similarity", "PV.NH.C05_eliminated",
+        "PV.nh_unique", "PV.NH.code_least_action", "PV.C05_hermitian_limit"]
 
 
 def check(tier, seed):
@@ -19,12 +20,15 @@ def check(tier, seed):
     d.assumptions += [LEAN_SETTING_NOTE,
                       "the similarity theorems are proved under the extra hypothesis  H_0 (S U') = (S U') H_0 ; inverse and gauge theorems need no hypothesis",
                       "no symmetry of the masks is used (asymmetric masks are covered)"]
-    d.not_decided += ["clause 'on Hermitian input the three outputs coincide with those of the Hermitian mode': bounded battery only (uniqueness argument not mechanised)",
+    d.assumptions += ["Hermitian-limit clause (PV.C05_hermitian_limit) and uniqueness (PV.nh_unique) use Gapped(H0) (energies of eliminated pairs differ: mask / solver obligations of this run) "
+                      "and, for the non-Hermitian side, the same commutation hypothesis as the similarity theorems"]
+    d.not_decided += [
                       "explicit (R, L) biorthogonal bases: through the projection contract of C14 (not under deductive contract here)"]
     d.explanation = ("Inverse relations (both sides, by contraction) and the gauge are machine-checked in Lean from the equations extracted from "
                      "algorithms.nonhermitian without further hypotheses.  X = [H_S, U'] and U_inv H U = H_tilde are machine-checked under the hypothesis that "
                      "H_0 commutes with the kept part of U' - exactly what the code silently assumes; that hypothesis fails on the unchanged tree for kept blocks "
                      "with different unperturbed energies (known finding), which the check replays natively and reports as KNOWN-FINDING while still failing "
-                     "on any other violation.")
+                     "on any other violation.  Hermitian-limit clause: machine-checked (PV.C05_hermitian_limit) - both algorithms' outputs are block-diagonalising transformations in the "
+                     "gauge Sel(U - U_inv) = 0, which is unique (PV.nh_unique).")
     d.run_battery("bd_battery.py", ["nonherm"], "inputs on which the shipped algorithm is exact (block-degenerate H_0 or all blocks fully diagonalized): <= 3 blocks, <= 2 parameters, order <= 3, complex energies")
     return d.finish(level="proof", trusted_base=["leanalg/lean/PV/*.lean", "leanalg/genlean.py", "leanalg/extract.py", "contracts/*.py"])
